@@ -46,6 +46,10 @@ def run(rep, ctx):
     with rep.guard("C14.key-provenance"):
         key_provenance(rep, ctx.model, "C14.key-provenance")
     rep.floor("C14.key-provenance", 5)
+    rep.rule("C14.getters", "the label getters, constant-folded over the 230 table values, report the reference crystal system / Bravais lattice / point group")
+    with rep.guard("C14.getters"):
+        getter_semantics(rep, ctx.model, T, "C14.getters")
+    rep.floor("C14.getters", 232)
     if True:
         rep.rule("C14.conj", "every normalizer maps the reference group onto itself")
         rep.rule("C14.metric", "every normalizer preserves a generic metric of the crystal system")
@@ -61,6 +65,110 @@ def run(rep, ctx):
 
 
 # ---------------------------------------------------------------------------------------------
+def _const_strs(e):
+    if isinstance(e, (ast.List, ast.Tuple, ast.Set)) and all(isinstance(x, ast.Constant) and isinstance(x.value, str) for x in e.elts):
+        return [x.value for x in e.elts]
+    if isinstance(e, ast.Constant) and isinstance(e.value, str):
+        return e.value
+    return None
+
+
+def getter_semantics(rep, M, T, rid):
+    """constant-fold the three label getters over the 230 table values and compare with the reference labels"""
+    from .. import spgref
+    SGI = T["SPACE_GROUP_INFO"]
+    for name, key in (("get_crystal_system", "crystal_system"), ("get_point_group", None)):
+        fq = SA + ".SymmetryAnalyzer." + name
+        fn = M.func(fq)
+        rets = [r for r in ast.walk(fn) if isinstance(r, ast.Return) and r.value is not None]
+        fl = Flow(fn)
+        if key:
+            ok = all(any(isinstance(x, ast.Subscript) and isinstance(x.slice, ast.Constant) and x.slice.value == key
+                         for e in fl.slice(r.value, fl.node_of(r))["exprs"] for x in ast.walk(e)) for r in rets) and \
+                not any(isinstance(x, (ast.BinOp, ast.IfExp)) for r in rets for e in fl.slice(r.value, fl.node_of(r))["exprs"] for x in ast.walk(e))
+            if ok:
+                rep.ok(rid, f"{name} returns SPACE_GROUP_INFO[n][{key!r}] unmodified")
+            else:
+                rep.violation(rid, name, f"does not return the tabulated {key!r} unmodified", M.where(fq))
+        else:
+            ok = all(any(isinstance(x, ast.Attribute) and x.attr == "pointgroup" for e in fl.slice(r.value, fl.node_of(r))["exprs"] for x in ast.walk(e)) for r in rets)
+            if ok:
+                rep.ok(rid, f"{name} returns the dataset's point group symbol")
+            else:
+                rep.violation(rid, name, "does not return dataset.pointgroup", M.where(fq))
+    fq = SA + ".SymmetryAnalyzer.get_bravais_lattice"
+    fn = M.func(fq)
+    var = None
+    for s2 in fn.body:
+        if isinstance(s2, ast.Assign) and isinstance(s2.value, ast.Subscript) and isinstance(s2.value.slice, ast.Constant) and s2.value.slice.value == "bravais_lattice":
+            var = norm(s2.targets[0])
+            start = fn.body.index(s2)
+    if var is None:
+        raise AnalysisError("get_bravais_lattice: read of SPACE_GROUP_INFO[n]['bravais_lattice'] not found")
+    post = fn.body[start + 1:]
+
+    def ev(e, val):
+        if isinstance(e, ast.Name) and e.id == var:
+            return val
+        if isinstance(e, ast.Constant):
+            return e.value
+        if isinstance(e, ast.Subscript):
+            base, i = ev(e.value, val), e.slice
+            if isinstance(i, ast.Constant):
+                return base[i.value]
+            if isinstance(i, ast.Slice):
+                lo = ev(i.lower, val) if i.lower else None
+                hi = ev(i.upper, val) if i.upper else None
+                return base[lo:hi]
+        if isinstance(e, ast.BinOp) and isinstance(e.op, ast.Add):
+            return ev(e.left, val) + ev(e.right, val)
+        if isinstance(e, (ast.List, ast.Tuple, ast.Set)):
+            return [ev(x, val) for x in e.elts]
+        if isinstance(e, ast.Compare) and len(e.ops) == 1:
+            a, b = ev(e.left, val), ev(e.comparators[0], val)
+            op = e.ops[0]
+            return {ast.In: lambda: a in b, ast.NotIn: lambda: a not in b, ast.Eq: lambda: a == b, ast.NotEq: lambda: a != b}[type(op)]()
+        if isinstance(e, ast.BoolOp):
+            vals = [ev(x, val) for x in e.values]
+            return all(vals) if isinstance(e.op, ast.And) else any(vals)
+        if isinstance(e, ast.UnaryOp) and isinstance(e.op, ast.Not):
+            return not ev(e.operand, val)
+        if isinstance(e, ast.Call) and isinstance(e.func, ast.Attribute) and e.func.attr in ("startswith", "endswith", "replace", "upper", "lower"):
+            return getattr(ev(e.func.value, val), e.func.attr)(*[ev(x, val) for x in e.args])
+        raise AnalysisError(f"get_bravais_lattice: expression `{norm(e)}` is outside the constant folder")
+
+    def run(stmts, val):
+        for s2 in stmts:
+            if isinstance(s2, ast.If):
+                r = run(s2.body if ev(s2.test, val) else s2.orelse, val)
+                if r[0] == "ret":
+                    return r
+                val = r[1]
+            elif isinstance(s2, ast.Assign) and norm(s2.targets[0]) == var:
+                val = ev(s2.value, val)
+            elif isinstance(s2, ast.Return):
+                return ("ret", ev(s2.value, val))
+            elif isinstance(s2, ast.Expr) and isinstance(s2.value, ast.Constant):
+                continue
+            else:
+                raise AnalysisError(f"get_bravais_lattice: statement `{norm(s2)[:50]}` is outside the constant folder")
+        return ("val", val)
+    for g in range(1, 231):
+        tab = SGI.get(g, {}).get("bravais_lattice")
+        if not isinstance(tab, str):
+            continue
+        r = run(post, tab)
+        got = r[1]
+        sysname = spgref.crystal_system(g)
+        c = spgref.centring(g)
+        want = spgref.PEARSON[sysname] + ("S" if c in "ABC" else c)
+        if r[0] == "ret" and got == want:
+            rep.ok(rid, f"get_bravais_lattice for group {g}: {tab!r} -> {got!r}")
+        else:
+            rep.violation(rid, f"get_bravais_lattice for group {g}", f"tabulated {tab!r} is reported as {got!r}; the Pearson symbol with merged "
+                          f"side centrings is {want!r}", M.where(fq))
+
+
 def _is_sg_number_source(M, fq, call):
     """call is self.get_space_group_number()"""
     r = M.resolve(fq, call.func)
